@@ -175,6 +175,12 @@ FAMILIES: Dict[str, Dict[str, Any]] = {
 
 BUILTIN_SCALARS = ["String", "Int", "Float", "Boolean", "ID"]
 
+
+def family_of(case: Dict[str, Any], scalar: str) -> Dict[str, Any]:
+    """the configuration family of a scalar of a case: a key of FAMILIES or an inline family dict"""
+    f = case["scalars"][scalar]
+    return FAMILIES[f] if isinstance(f, str) else f
+
 # --------------------------------------------------------------------------------------------
 # types
 # --------------------------------------------------------------------------------------------
@@ -387,18 +393,18 @@ def finish_case(case: Dict[str, Any]) -> None:
     case["sdl"] = "\n".join(lines) + "\n"
     case["queries"] = "\n".join(docs) + "\n"
     cfg: Dict[str, Any] = {"convert_to_snake_case": case["snake"], "async_client": case["async"]}
-    sc = {s: dict(FAMILIES[f]["cfg"]) for s, f in case["scalars"].items() if FAMILIES[f]["cfg"] is not None}
+    sc = {s: dict(family_of(case, s)["cfg"]) for s in case["scalars"] if family_of(case, s)["cfg"] is not None}
     if sc:
         cfg["scalars"] = sc
-    if any(FAMILIES[f]["py"] == "cls" or FAMILIES[f]["parse"] for f in case["scalars"].values()):
+    if any(family_of(case, s)["py"] == "cls" or family_of(case, s)["parse"] for s in case["scalars"]):
         cfg["files_to_include"] = [SCALAR_MODULE + ".py"]
     case["config"] = cfg
 
 
 def scalars_cfg_json(case: Dict[str, Any]) -> List[Dict[str, Any]]:
     out = []
-    for s, f in case["scalars"].items():
-        c = FAMILIES[f]["cfg"]
+    for s in case["scalars"]:
+        c = family_of(case, s)["cfg"]
         if c is not None:
             out.append({"name": s, "type": c["type"], "serialize": c.get("serialize"), "parse": c.get("parse"), "import": c.get("import")})
     return out
@@ -674,7 +680,7 @@ def gen_value(rng: random.Random, case: Dict[str, Any], gt: List[Any], *, top: b
     if name in case["enums"]:
         return {"k": "enum", "cls": name, "v": rng.choice(case["enums"][name])}
     if name in case["scalars"]:
-        fam = FAMILIES[case["scalars"][name]]
+        fam = family_of(case, name)
         if fam["py"] == "cls":
             raw = rng.choice(["r1", "r2", 7, ["l", 1], {"a": 1}, "", 0])
         elif fam["py"] == "str":
@@ -713,7 +719,7 @@ def build_py(spec: Any, pkg: Any, case: Dict[str, Any]) -> Any:
     if k == "enum":
         return getattr(pkg, spec["cls"])(spec["v"])
     if k == "custom":
-        fam = FAMILIES[case["scalars"][spec["scalar"]]]
+        fam = family_of(case, spec["scalar"])
         if fam["py"] == "cls":
             mod = importlib.import_module(f"{pkg.__name__}.{SCALAR_MODULE}")
             return getattr(mod, fam["cls"])(spec["j"])
@@ -770,7 +776,7 @@ def custom_leaves(spec: Any, case: Dict[str, Any], which: str = "serialize") -> 
         return out
     k = spec["k"]
     if k == "custom":
-        fn = FAMILIES[case["scalars"][spec["scalar"]]][which]
+        fn = family_of(case, spec["scalar"])[which]
         if fn:
             out.append((fn, spec["j"]))
     elif k == "list":
@@ -795,7 +801,7 @@ def py_intended(spec: Any, case: Dict[str, Any], input_defaults: Dict[str, Dict[
     if k == "enum":
         return spec["v"]
     if k == "custom":
-        fn = FAMILIES[case["scalars"][spec["scalar"]]]["serialize"]
+        fn = family_of(case, spec["scalar"])["serialize"]
         return {"$ser": fn, "v": spec["j"]} if fn else spec["j"]
     if k == "list":
         return [py_intended(x, case, input_defaults) for x in spec["xs"]]
